@@ -113,6 +113,10 @@ func runC10(c *Ctx) {
 	b.flush()
 	c10FormatInt(c, b)
 	b.flush()
+	c10TypedTokens(c, b)
+	b.flush()
+	c10MarshalKinds(c, b)
+	b.flush()
 	if c.Thorough() {
 		c10Float32All(c)
 		c.SetExhaustive(true)
